@@ -126,6 +126,20 @@ Theorem C06_skip_partial_single_final :
     Permutation (final_groups fn (concat (map (skip_partial_out fn) pss))) (ref_groups fn l).
 Proof. exact skip_partial_single_proof. Qed.
 
+(* GROUPING SETS / ROLLUP / CUBE: what the operator does (every row is interned once per set, with the masked-out
+   columns NULL and the grouping id appended, into ONE table) = the definition (the union of the per-set aggregations),
+   for a non-empty input and pairwise distinct grouping ids. *)
+Theorem C06_grouping_sets_union :
+  forall fn (ms : list (list bool)) (l : list (row * value)),
+    l <> [] -> NoDup (map (fun mo : list bool * BinNums.Z => set_id (fst mo) (snd mo)) (with_ordinals [] ms)) ->
+    Permutation (grouping_sets_exec fn ms l) (grouping_sets_def fn ms l).
+Proof. exact grouping_sets_union_proof. Qed.
+(* the ids are distinct e.g. for ROLLUP(a, b) with a repeated set: 0, 1, 3 and 4 + 1 for the second (a) *)
+Example C06_grouping_sets_ids_distinct :
+  map (fun mo : list bool * BinNums.Z => set_id (fst mo) (snd mo))
+      (with_ordinals [] [[false; false]; [false; true]; [true; true]; [false; true]]) = [0; 1; 3; 5]%Z.
+Proof. vm_compute. reflexivity. Qed.
+
 (* The hypotheses are satisfiable on a non-trivial instance, and early emission really happens: GROUP BY (a, b),
    input sorted on b only (PartiallySorted([1])), three batches, batch_size 2: the groups with b = 1 leave before
    the end of the input, a group key recurs across batches, and the run ends with the first-seen grouping. *)
